@@ -101,8 +101,13 @@ class Cls(object):
         self.own_methods = {}
         self.class_assigns = {}  # class-level NAME = value (own and, after Repo.link_classes, inherited)
         self.bases = []
+        self.setters = {}  # property name -> Func of its @name.setter
         for st in node.body:
             if isinstance(st, (ast.FunctionDef, ast.AsyncFunctionDef)):
+                if any(isinstance(d, ast.Attribute) and d.attr in ("setter", "deleter") and isinstance(d.value, ast.Name) and d.value.id == st.name for d in st.decorator_list):
+                    if any(isinstance(d, ast.Attribute) and d.attr == "setter" for d in st.decorator_list):
+                        self.setters[st.name] = Func(module, st, cls=self)
+                    continue
                 self.methods[st.name] = Func(module, st, cls=self)
             elif isinstance(st, ast.Assign) and len(st.targets) == 1 and isinstance(st.targets[0], ast.Name):
                 self.class_assigns[st.targets[0].id] = (module, st.value)
